@@ -158,8 +158,16 @@ def run_impl(spec):
                                 f"{str(d[1])[:150]} vs {str(d[2])[:150]}", "detail": {"event": d[0]}})
         ev = a
     elif spec["kind"] == "sim":
-        a = _sub(spec, 1, "sim_worker.py")
-        b = _sub(spec, 2, "sim_worker.py")
+        def sim_run(hs):
+            try:
+                return _sub(spec, hs, "sim_worker.py")
+            except RuntimeError as e:
+                # the experiment itself raised (e.g. PBT on the simulator: the simulator writes no checkpoints to copy):
+                # the last line of the traceback is this twin's whole trace - equal for equal seeds
+                hist["sim-run-raised"] = 1
+                return [["raised", str(e).strip().split("\n")[-1][:200].split("/tmp/")[0]]]
+        a = sim_run(1)
+        b = sim_run(2)
         d = _first_diff(a, b)
         if d:
             mon.append({"signature": f"c11:twin-diverges:{name}:simulated-experiment",
